@@ -1125,6 +1125,12 @@ func (g *apiGen) call() string {
 		upd := bson.D{{Key: "$inc", Value: bson.D{{Key: g.uniqField, Value: pick(r, []interface{}{int32(1), int32(-1)})}}}}
 		return "(update " + s + " " + hx(apiDbs[0]) + " " + hx(apiColls[0]) + " many " + enc(flt) + " " + enc(upd) + " F ())"
 	}
+	if g.uniqField != "" && r.chance(1, 25) {
+		// read everything in the order of the (possibly partial) unique index
+		// key: the result is the whole collection, indexed or not
+		srt := enc(bson.D{{Key: g.uniqField, Value: pick(r, []interface{}{int32(1), int32(1), int32(-1)})}})
+		return "(find " + s + " " + hx(apiDbs[0]) + " " + hx(apiColls[0]) + " (D) " + srt + " NIL " + strconv.Itoa(pick(r, []int{0, 0, 1})) + " " + strconv.Itoa(pick(r, []int{0, 0, 3})) + ")"
+	}
 	switch {
 	case k < 18:
 		return "(insertOne " + s + " " + t + " " + enc(g.doc(r.chance(4, 5))) + ")"
